@@ -8,33 +8,17 @@ namespace Stef.Otlp
 
 variable {α : Type}
 
-theorem insertStable_perm (cmp : α → α → Option Int) (x : α) : ∀ (l l' : List α),
-    insertStable cmp x l = some l' → l'.Perm (x :: l)
-  | [], l', h => by
-    simp [insertStable] at h; subst h; exact List.Perm.refl _
-  | y :: t, l', h => by
-    simp only [insertStable] at h
-    split at h
-    · simp at h
-    · rename_i c _
-      split at h
-      · split at h
-        · simp at h
-        · rename_i t' ht
-          simp at h; subst h
-          have ih := insertStable_perm cmp x t t' ht
-          exact (List.Perm.cons y ih).trans (List.Perm.swap x y t)
-      · simp at h; subst h; exact List.Perm.refl _
+theorem insertStable_perm (cmp : α → α → Int) (x : α) : ∀ (l : List α), (insertStable cmp x l).Perm (x :: l)
+  | [] => List.Perm.refl _
+  | y :: t => by
+    simp only [insertStable]
+    split
+    · exact (List.Perm.cons y (insertStable_perm cmp x t)).trans (List.Perm.swap x y t)
+    · exact List.Perm.refl _
 
-theorem sortStable_perm (cmp : α → α → Option Int) : ∀ (l l' : List α), sortStable cmp l = some l' → l'.Perm l
-  | [], l', h => by simp [sortStable] at h; subst h; exact List.Perm.refl _
-  | x :: t, l', h => by
-    simp only [sortStable] at h
-    split at h
-    · simp at h
-    · rename_i t' ht
-      have ih := sortStable_perm cmp t t' ht
-      exact (insertStable_perm cmp x t' l' h).trans (List.Perm.cons x ih)
+theorem sortStable_perm (cmp : α → α → Int) : ∀ (l : List α), (sortStable cmp l).Perm l
+  | [] => List.Perm.refl _
+  | x :: t => (insertStable_perm cmp x (sortStable cmp t)).trans (List.Perm.cons x (sortStable_perm cmp t))
 
 theorem insertSpan_perm (x : Span) : ∀ (l : List Span), (insertSpan x l).Perm (x :: l)
   | [] => List.Perm.refl _
@@ -51,91 +35,80 @@ theorem sortSpans_perm : ∀ (l : List Span), (sortSpans l).Perm l
 /-! ### merging equal neighbours keeps every item under an equal key, in order -/
 
 section merge
-variable {K β : Type} (cmp : α → α → Option Int) (merge : α → α → α) (key : α → K) (items : α → List β)
+variable {K β : Type} (cmp : α → α → Int) (merge : α → α → α) (key : α → K) (items : α → List β)
 
 /-- all (key, item) pairs of a list of containers -/
 def flatItems (l : List α) : List (K × β) := (l.map fun x => (items x).map fun i => (key x, i)).flatten
 
-theorem mergeFrom_flat
+theorem mergeFrom_flat (P : α → Prop)
     (hkey : ∀ x y, key (merge x y) = key x) (hitems : ∀ x y, items (merge x y) = items x ++ items y)
-    (hcmp : ∀ x x' y, key x = key x' → cmp x y = cmp x' y) :
-    ∀ (rest : List α) (cur : α) (out : List α),
-      (∀ y ∈ rest, cmp cur y = some 0 → key cur = key y) →
-      (∀ x ∈ rest, ∀ y ∈ rest, cmp x y = some 0 → key x = key y) →
-      mergeFrom cmp merge cur rest = some out →
-      flatItems key items out = flatItems key items (cur :: rest)
-  | [], cur, out, _, _, h => by simp [mergeFrom] at h; subst h; rfl
-  | y :: t, cur, out, h1, h2, h => by
-    simp only [mergeFrom] at h
-    split at h
-    · simp at h
-    · rename_i c hc
-      split at h
-      · rename_i hc0
-        have hc0' : c = 0 := by simpa using hc0
-        subst hc0'
-        have hk : key cur = key y := h1 y (by simp) hc
-        have ih := mergeFrom_flat hkey hitems hcmp t (merge cur y) out
-          (by
-            intro z hz hz0
-            rw [hkey]
-            rw [hcmp (merge cur y) cur z (hkey cur y)] at hz0
-            exact h1 z (by simp [hz]) hz0)
-          (by intro a ha b hb; exact h2 a (by simp [ha]) b (by simp [hb]))
-          h
-        rw [ih]
-        simp [flatItems, hkey, hitems, hk]
-      · split at h
-        · simp at h
-        · rename_i t' ht
-          simp at h; subst h
-          have ih := mergeFrom_flat hkey hitems hcmp t y t'
-            (by intro z hz; exact h2 y (by simp) z (by simp [hz]))
-            (by intro a ha b hb; exact h2 a (by simp [ha]) b (by simp [hb]))
-            ht
-          simp only [flatItems, List.map_cons, List.flatten_cons] at ih ⊢
-          rw [ih]
+    (hP : ∀ x y, P x → P (merge x y))
+    (hfaith : ∀ x y, P x → P y → cmp x y = 0 → key x = key y) :
+    ∀ (rest : List α) (cur : α), P cur → (∀ y ∈ rest, P y) →
+      flatItems key items (mergeFrom cmp merge cur rest) = flatItems key items (cur :: rest)
+  | [], cur, _, _ => rfl
+  | y :: t, cur, hc, hr => by
+    simp only [mergeFrom]
+    split
+    · rename_i hc0
+      have hc0 : cmp cur y = 0 := by simpa using hc0
+      have hk : key cur = key y := hfaith cur y hc (hr y (by simp)) hc0
+      rw [mergeFrom_flat P hkey hitems hP hfaith t (merge cur y) (hP cur y hc) (fun z hz => hr z (by simp [hz]))]
+      simp [flatItems, hkey, hitems, hk]
+    · have ih := mergeFrom_flat P hkey hitems hP hfaith t y (hr y (by simp)) (fun z hz => hr z (by simp [hz]))
+      simp only [flatItems, List.map_cons, List.flatten_cons] at ih ⊢
+      rw [ih]
 
-theorem mergeAdjacent_flat
+theorem mergeAdjacent_flat (P : α → Prop)
     (hkey : ∀ x y, key (merge x y) = key x) (hitems : ∀ x y, items (merge x y) = items x ++ items y)
-    (hcmp : ∀ x x' y, key x = key x' → cmp x y = cmp x' y)
-    (l out : List α) (hl : ∀ x ∈ l, ∀ y ∈ l, cmp x y = some 0 → key x = key y)
-    (h : mergeAdjacent cmp merge l = some out) : flatItems key items out = flatItems key items l := by
+    (hP : ∀ x y, P x → P (merge x y))
+    (hfaith : ∀ x y, P x → P y → cmp x y = 0 → key x = key y) (l : List α) (hl : ∀ y ∈ l, P y) :
+    flatItems key items (mergeAdjacent cmp merge l) = flatItems key items l := by
   cases l with
-  | nil => simp [mergeAdjacent] at h; subst h; rfl
+  | nil => rfl
   | cons x t =>
-    exact mergeFrom_flat cmp merge key items hkey hitems hcmp t x out
-      (by intro y hy; exact hl x (by simp) y (by simp [hy]))
-      (by intro a ha b hb; exact hl a (by simp [ha]) b (by simp [hb])) h
+    exact mergeFrom_flat cmp merge key items P hkey hitems hP hfaith t x (hl x (by simp)) (fun z hz => hl z (by simp [hz]))
 
-/-- a property closed under merging holds for every output element -/
+/-- a property closed under merging (with any right operand having it) holds for every output element -/
 theorem mergeFrom_all (Q : α → Prop) (hQ : ∀ x y, Q x → Q y → Q (merge x y)) :
-    ∀ (rest : List α) (cur : α) (out : List α), Q cur → (∀ y ∈ rest, Q y) →
-      mergeFrom cmp merge cur rest = some out → ∀ z ∈ out, Q z
-  | [], cur, out, hc, _, h => by simp [mergeFrom] at h; subst h; simpa using hc
-  | y :: t, cur, out, hc, hr, h => by
-    simp only [mergeFrom] at h
-    split at h
-    · simp at h
-    · split at h
-      · exact mergeFrom_all Q hQ t (merge cur y) out (hQ cur y hc (hr y (by simp)))
-          (fun z hz => hr z (by simp [hz])) h
-      · split at h
-        · simp at h
-        · rename_i t' ht
-          simp at h; subst h
-          intro z hz
-          simp only [List.mem_cons] at hz
-          cases hz with
-          | inl e => subst e; exact hc
-          | inr hz => exact mergeFrom_all Q hQ t y t' (hr y (by simp)) (fun z hz => hr z (by simp [hz])) ht z hz
+    ∀ (rest : List α) (cur : α), Q cur → (∀ y ∈ rest, Q y) → ∀ z ∈ mergeFrom cmp merge cur rest, Q z
+  | [], cur, hc, _ => by simp [mergeFrom]; exact hc
+  | y :: t, cur, hc, hr => by
+    simp only [mergeFrom]
+    split
+    · exact mergeFrom_all Q hQ t (merge cur y) (hQ cur y hc (hr y (by simp))) (fun z hz => hr z (by simp [hz]))
+    · intro z hz
+      simp only [List.mem_cons] at hz
+      cases hz with
+      | inl e => subst e; exact hc
+      | inr hz => exact mergeFrom_all Q hQ t y (hr y (by simp)) (fun z hz => hr z (by simp [hz])) z hz
 
-theorem mergeAdjacent_all (Q : α → Prop) (hQ : ∀ x y, Q x → Q y → Q (merge x y)) (l out : List α)
-    (hl : ∀ y ∈ l, Q y) (h : mergeAdjacent cmp merge l = some out) : ∀ z ∈ out, Q z := by
+theorem mergeAdjacent_all (Q : α → Prop) (hQ : ∀ x y, Q x → Q y → Q (merge x y)) (l : List α)
+    (hl : ∀ y ∈ l, Q y) : ∀ z ∈ mergeAdjacent cmp merge l, Q z := by
   cases l with
-  | nil => simp [mergeAdjacent] at h; subst h; simp
-  | cons x t =>
-    exact mergeFrom_all cmp merge Q hQ t x out (hl x (by simp)) (fun z hz => hl z (by simp [hz])) h
+  | nil => simp [mergeAdjacent]
+  | cons x t => exact mergeFrom_all cmp merge Q hQ t x (hl x (by simp)) (fun z hz => hl z (by simp [hz]))
+
+theorem mergeFrom_count (hitems : ∀ x y, items (merge x y) = items x ++ items y) :
+    ∀ (rest : List α) (cur : α),
+      ((mergeFrom cmp merge cur rest).map fun x => (items x).length).sum
+        = ((cur :: rest).map fun x => (items x).length).sum
+  | [], cur => rfl
+  | y :: t, cur => by
+    simp only [mergeFrom]
+    split
+    · rw [mergeFrom_count hitems t (merge cur y)]
+      simp [hitems]
+      omega
+    · have ih := mergeFrom_count hitems t y
+      simp only [List.map_cons, List.sum_cons] at ih ⊢
+      omega
+
+theorem mergeAdjacent_count (hitems : ∀ x y, items (merge x y) = items x ++ items y) (l : List α) :
+    ((mergeAdjacent cmp merge l).map fun x => (items x).length).sum = (l.map fun x => (items x).length).sum := by
+  cases l with
+  | nil => rfl
+  | cons x t => exact mergeFrom_count cmp merge items hitems t x
 
 end merge
 
